@@ -91,6 +91,15 @@ instance : ParserIO MS where
   ioPanic := fun s _ d => (.panic s, d)
   ioAttempt := MS.attempt
 
+/-! ### The short-writing device -/
+
+/-- The device as a SINK with short writes (`Cursor<Vec<u8>>` semantics at the current position): call
+number `d.calls` accepts at most `max (sch d.calls) 1` bytes. -/
+def shortWr (sch : Nat → Nat) : Layers.Wr Dev where
+  wr d bs :=
+    let k := if bs = [] then 0 else min bs.length (max (sch d.calls) 1)
+    (.ok k, { buf := writeAt d.buf d.pos (bs.take k), pos := d.pos + k, calls := d.calls + 1 })
+
 /-! ### The parsers, generically -/
 
 namespace G
